@@ -210,19 +210,19 @@ func (c *Ctx) tokenHandlerGates(th tokenHandler, fn *ssa.Function) {
 		fs := FactsAtInstr(e.in)
 		pos := posf(c, e.in)
 		var missing []string
-		if !HasFact(fs, gDecode) {
+		if !HoldsGiven(fs, gDecode) {
 			missing = append(missing, "base64 decode succeeded")
 		}
-		if !HasFact(fs, gSize) {
+		if !HoldsGiven(fs, gSize) {
 			missing = append(missing, "len(raw)==TokenSize()")
 		}
-		if !HasFact(fs, gLookup) {
+		if !HoldsGiven(fs, gLookup) {
 			missing = append(missing, "selector look-up succeeded")
 		}
 		if ok, why := verifierOK(e.in); !ok {
 			missing = append(missing, "verifier compare ("+why+")")
 		}
-		if th.expiry != "" && !HasFact(fs, gExpiry) {
+		if th.expiry != "" && !HoldsGiven(fs, gExpiry) {
 			missing = append(missing, "!now.After("+th.expiry+"())")
 		}
 		if len(missing) == 0 {
@@ -244,6 +244,50 @@ func (c *Ctx) tokenHandlerGates(th tokenHandler, fn *ssa.Function) {
 		r.Check(ok, "C05.single-use", name, m+`("")`, pos, "cleared with the empty constant", "the used token's "+m+" is not overwritten with the empty string")
 	}
 	c.mustSaveAfterPut("C05.save", fn, nil)
+	// the new password and the spent token reach storage in one write: no storer
+	// write lies between setting the password and clearing the token
+	for _, pp := range c.userCalls(fn, "PutPassword") {
+		for _, m := range th.clears {
+			var clears []ssa.Instruction
+			for _, call := range c.userCalls(fn, m) {
+				if s, isC := ConstStr(Arg(call, 0)); isC && s == "" {
+					clears = append(clears, call.(ssa.Instruction))
+				}
+			}
+			if len(clears) == 0 {
+				continue // reported by C05.single-use
+			}
+			pre := false
+			for _, cl := range clears {
+				if InstrDominates(cl, pp.(ssa.Instruction)) {
+					pre = true
+				}
+			}
+			if pre {
+				continue
+			}
+			q := PathQuery{From: pp.(ssa.Instruction), Cut: func(i ssa.Instruction) bool {
+				for _, cl := range clears {
+					if i == cl {
+						return true
+					}
+				}
+				return false
+			}, Goal: func(i ssa.Instruction) bool {
+				call, ok := i.(ssa.CallInstruction)
+				if !ok {
+					return false
+				}
+				_, isW := storerWrites[Callee(call)]
+				return isW
+			}}
+			if p := q.Find(); p != nil {
+				r.Bad("C05.atomic", name, "PutPassword…"+m+`("")…Save`, posf(c, p[len(p)-1]), "the account is written to storage with the new password while the used token's "+m[3:]+" is still set: if the later write fails, or between the two, the same link changes the password again", c.P.DescribePath(p)...)
+			} else {
+				r.Ok("C05.atomic", name, "PutPassword…"+m+`("")…Save`, posf(c, pp), "the token is cleared before the account is written")
+			}
+		}
+	}
 	if k, at := c.errHandlingAll(fn, fnSave); k != "" {
 		r.Bad("C05.save-err", name, "Save.err", posf(c, at), "error of Save is "+k)
 	} else {
@@ -441,8 +485,11 @@ func (c *Ctx) tokenCodec() {
 				// returns, the buffer otherwise
 				var one ssa.Value
 				for _, e := range x.Edges {
-					if IsNilConst(e) {
+					if IsNilConst(e) || e == ssa.Value(x) {
 						continue
+					}
+					if _, nested := e.(*ssa.Phi); nested {
+						return v // merges of merges: not the helper shape
 					}
 					r := bufRoot(e)
 					if one != nil && one != r {
